@@ -29,7 +29,7 @@ class O:
     pass
 
 
-def go(layers, seed):
+def go(layers, seed, noise=0):
     import io
     from contextlib import redirect_stdout
     from zope.testrunner.options import get_options
@@ -45,6 +45,12 @@ def go(layers, seed):
     r.options.output = Out()
     r.tests_by_layer_name = {n: unittest.TestSuite([T(i) for i in t]) for n, t in layers}
     f = Shuffle(r)
+    # between the creation of the feature and its set-up the test modules are imported: whatever they do with the `random`
+    # module (sample data built at import time) is none of the shuffle's business
+    for _ in range(noise):
+        random.random()
+    if noise % 3 == 2:
+        random.seed(noise)
     f.global_setup()
     f.report()
     res = [[n, [t.i for t in s]] for n, s in r.tests_by_layer_name.items()]
@@ -55,12 +61,12 @@ def go(layers, seed):
 def run(c):
     seed = c['seed']
     r1, rep1, used = go(c['layers'], seed)
-    r2, _, _ = go(list(reversed(c['layers'])), seed)
+    r2, _, _ = go(list(reversed(c['layers'])), seed, noise=1 + len(c['layers']) % 5)
     seed_ok = (rep1 == 'Tests were shuffled using seed number %d.' % seed) and used == seed
     # an unseeded run reports a seed that reproduces it
     r3, rep3, used3 = go(c['layers'], None)
     reported = int(rep3.split('number')[1].strip(' .'))
-    r4, _, _ = go(c['layers'], reported)
+    r4, _, _ = go(c['layers'], reported, noise=2)
     seed_ok = seed_ok and r3 == r4
     # oracle: the same generator, independently
     rng = random.Random(seed)
